@@ -88,7 +88,7 @@ def gen(rng, tier):
             cmds = ["newini 0"]; obs = [False]
             for j, v in enumerate(vals[i:i + per]):
                 k = b"k%d" % j
-                g = rng.choice([None, b"sec"])
+                g = rng.choice([None, b"sec", b"other", b"sec"])
                 cmds.append(mk(kd, g, k, v)); obs.append(False)
                 if rng.random() < 0.25:
                     # a call that is refused must leave the stored value alone
